@@ -16,5 +16,7 @@ def check(ctx):
     from . import casts
     casts.analyze(ctx, {"C17.a"})   # a class id must not wrap: the id on a transition selects the predicate
     # the property is observed on scanners obtained through build(): the cache must hand back the configuration's own compilation
+    from . import adaptors
+    adaptors.analyze(ctx, ("C08.f",))
     from .common import cache_foundation
     cache_foundation(ctx)
